@@ -3,7 +3,7 @@ From Coq Require Import ZArith QArith List Bool.
 From KV Require Import Base.IEEE Base.Outcome Base.Num C19.Model C06.Model C06.Dur C06.Run.
 From KV Require Import C04.Transport C04.Resampler C04.StaticData C04.StaticSound C04.ProofsTransport.
 From KV Require C18.Model C18.ProofsSched.
-From KV Require Import C09.Model C09.ProofsShell C09.ProofsTape C09.ProofsMain C09.ProofsLead C09.ProofsExamples C09.Run.
+From KV Require Import C09.Model C09.ProofsShell C09.ProofsTape C09.ProofsMain C09.ProofsLead C09.ProofsAtomic C09.ProofsExamples C09.Run.
 Import ListNotations.
 Local Open Scope Z_scope.
 
@@ -58,6 +58,45 @@ Theorem packetisation_independent :
         run_stream powf A azero F interp cast ascale V vinterp silence identity amp P pinterp panned fuel
                    audio psize' land' cap w0' evs.
 Proof. exact (@packet_independence). Qed.
+
+(** The simulation in exact arithmetic, with "the same reported positions (within one frame)" spelled out: under the
+    same hypotheses, with positive sample rate and non-negative time steps, every pair of reports carries the same
+    output, states and [finished()], and the streaming position is ahead of the static one by less than one frame
+    as long as the ring holds the frame being heard. *)
+Theorem streaming_simulates_static_Q :
+  forall (powf : Q -> Q -> Q) (A : Type) (azero : A) (F : Type) (interp : A -> A -> A -> A -> F -> A) (cast : Q -> F)
+         (ascale : A -> F -> A) (V : Type) (vinterp : V -> V -> Q -> V) (silence identity : V) (amp : V -> F)
+         (P : Type) (pinterp : P -> P -> Q -> P) (pcenter : P) (panned : A -> P -> A)
+         (fuel : nat) (audio : list A) (cap sr : Z) (slice : option (Z * Z)) (g : settings Q V P) (B : Z),
+    wf_config A azero V P fuel audio sr slice g B -> 0 < sr ->
+    forall (psize land : nat -> nat) (evs : list (event Q V P)),
+      rates_nonneg powf V P g evs -> dts_nonneg V P evs ->
+      exists x0 w0,
+        static_new A azero V silence identity P pcenter fuel sr (audio_source A azero audio) slice g = Ok x0 /\
+        stream_new A azero V silence identity P pcenter audio land sr slice g = Ok w0 /\
+        forall ys,
+          run_stream powf A azero F interp cast ascale V vinterp silence identity amp P pinterp panned fuel
+                     audio psize land cap w0 evs = Ok (ys, false) ->
+          exists xs,
+            run_static powf A azero F interp cast ascale V vinterp silence identity amp P pinterp panned fuel x0 evs = Ok xs /\
+            Forall2 (pos_close A sr) xs ys.
+Proof. exact (@simulation_Q). Qed.
+
+(** Why a [process] call may be modelled as one atomic step although the decoder thread runs beside it: if the call
+    was not starved and the decoder had not finished, ANY entries appended to the ring (what the decoder pushes
+    meanwhile) change neither the output nor the state the call leaves; they are simply still in the ring. *)
+Theorem process_atomic_wrt_pushes :
+  forall (T : Type) (NT : Num T) (ND : NumDur T) (powf : T -> T -> T)
+         (A : Type) (azero : A) (F : Type) (interp : A -> A -> A -> A -> F -> A) (cast : T -> F) (ascale : A -> F -> A)
+         (V : Type) (vinterp : V -> V -> T -> V) (identity : V) (amp : V -> F)
+         (P : Type) (pinterp : P -> P -> T -> P) (panned : A -> P -> A) (fuel : nat)
+         (z z' : stream_sound T A V P) (len : Z) (dt : T) (i : info T) (o : obs T A) (extra : list (A * Z)),
+    y_reached_end (z_core z) = false ->
+    stream_process powf A azero F interp cast ascale V vinterp identity amp P pinterp panned fuel z len dt i = Ok (z', o, false) ->
+    stream_process powf A azero F interp cast ascale V vinterp identity amp P pinterp panned fuel
+                   {| z_core := more A (z_core z) extra; z_shell := z_shell z |} len dt i
+      = Ok ({| z_core := more A (z_core z') extra; z_shell := z_shell z' |}, o, false).
+Proof. exact (@process_more). Qed.
 
 (** "The decoder keeps ahead", checkable from outside: a [process] call after which the ring still holds four
     entries was not starved (the ring only shrinks during a call) — whatever happened before. *)
